@@ -189,6 +189,19 @@ struct POD4 {
   std::strong_ordering operator<=>(const POD4 &o) const { return v <=> o.v; }
 #endif
 };
+// over-aligned trivially copyable element (alignment above that of a pointer: the inline slots must honour it)
+struct alignas(16) OA16 {
+  int v;
+  OA16() : v(0) {}
+  OA16(int x) : v(x) {}  // NOLINT
+  int value() const { return v; }
+  bool operator==(const OA16 &o) const { return v == o.v; }
+  bool operator<(const OA16 &o) const { return v < o.v; }
+#if __cplusplus >= 202002L
+  std::strong_ordering operator<=>(const OA16 &o) const { return v <=> o.v; }
+#endif
+};
+static_assert(std::is_trivially_copyable<OA16>::value && alignof(OA16) == 16 && sizeof(OA16) == 16, "OA16");
 static_assert(std::is_trivially_copyable<TC4>::value && std::is_trivially_copyable<TC2>::value, "TC");
 static_assert(std::is_trivially_default_constructible<POD4>::value && std::is_trivially_copyable<POD4>::value, "POD");
 
